@@ -500,8 +500,7 @@ def hover_proj(item, ident):
     if rest.startswith("function "):
         rest = rest[9:]
     m = IDENT_RE.match(rest)
-    named = bool(m) and m.group(0) == ident
-    return "hover=%s:%d" % ("L" if loc else "G", 1 if named else 0)
+    return "hover=%s:%s" % ("L" if loc else "G", m.group(0) if m else "?")
 
 
 def idents_of_files(files):
